@@ -16,6 +16,12 @@ theorem acct_snoc (s s' : St) (e : Elem) (hA : s'.A = s.A ++ [e]) (hO : s'.flO =
   simp only [List.append_assoc, List.singleton_append]
   exact List.perm_middle.trans (List.Perm.cons e h)
 
+theorem acct_cons (s s' : St) (e : Elem) (hA : s'.A = e :: s.A) (hO : s'.flO = s.flO) (hT : s'.flT = s.flT)
+    (hr : s'.retd = s.retd) (hi : s'.ins = e :: s.ins) (h : Acct s) : Acct s' := by
+  unfold Acct acctList at *; rw [hA, hO, hT, hr, hi]
+  simp only [List.cons_append]
+  exact List.Perm.cons e h
+
 theorem acct_popLP (s s' : St) (x : Elem) (hl : s.A.getLast? = some x) (hA : s'.A = s.A.dropLast)
     (hO0 : s.flO = none) (hO : s'.flO = some x) (hT : s'.flT = s.flT)
     (hr : s'.retd = s.retd) (hi : s'.ins = s.ins) (h : Acct s) : Acct s' := by
@@ -58,10 +64,10 @@ theorem acct_thiefRet (s s' : St) (r : Option Elem) (hA : s'.A = s.A) (hr0 : r =
     apply List.Perm.append_left
     exact List.perm_middle
 
-theorem applySto_ghost (s : St) (st : Sto) :
+theorem applySto_ghost (s : St) (st : Sto) (hst : ∀ v e, st ≠ .baseI v e) :
     (applySto s st).A = s.A ∧ (applySto s st).flO = s.flO ∧ (applySto s st).flT = s.flT ∧
     (applySto s st).retd = s.retd ∧ (applySto s st).ins = s.ins := by
-  cases st <;> simp [applySto]
+  cases st <;> simp [applySto] at hst ⊢
 
 theorem length_pos_getLast? (l : List Elem) (h : 0 < l.length) : ∃ x, l.getLast? = some x := by
   cases hl : l.getLast? with
@@ -117,6 +123,12 @@ theorem stepO_acct (s s' : St) (h : Inv s) (ha : Acct s) (hs : stepO s = some s'
     split at hs
     · simp at hs; subst hs; exact acct_same s _ rfl rfl rfl rfl rfl ha
     · simp at hs
+  case stuckL => simp at hs
+  case pt9 =>
+    simp only [releaseO, hcfg, code_unlockFence, if_true] at hs
+    split at hs
+    · simp at hs; subst hs; exact acct_same s _ rfl rfl rfl rfl rfl ha
+    · simp at hs
   all_goals (first
     | (simp at hs; subst hs; exact acct_same s _ rfl rfl rfl rfl rfl ha)
     | (split at hs <;> simp at hs <;> subst hs <;> first | exact ha | exact acct_same s _ rfl rfl rfl rfl rfl ha)
@@ -157,15 +169,23 @@ theorem step_acct (s : St) (l : Lbl) (s' : St) (h : Inv s) (ha : Acct s) (hs : s
   case t p => exact stepT_acct s s' p h ha hs
   case flushO =>
     split at hs
-    · simp at hs; subst hs
-      obtain ⟨a1, a2, a3, a4, a5⟩ := applySto_ghost { s with bufO := _ } _
-      exact acct_same s _ a1 a2 a3 a4 a5 ha
+    · rename_i st rest hb
+      simp at hs; subst hs
+      by_cases hst : ∃ v e, st = .baseI v e
+      · obtain ⟨v, e, rfl⟩ := hst
+        exact acct_cons s _ e rfl rfl rfl rfl rfl ha
+      · obtain ⟨a1, a2, a3, a4, a5⟩ := applySto_ghost { s with bufO := rest } st (fun v e he => hst ⟨v, e, he⟩)
+        exact acct_same s _ a1 a2 a3 a4 a5 ha
     · simp at hs
   case flushT p =>
     split at hs
-    · simp at hs; subst hs
-      obtain ⟨a1, a2, a3, a4, a5⟩ := applySto_ghost { s with bufT := _ } _
-      exact acct_same s _ a1 a2 a3 a4 a5 ha
+    · rename_i st rest hb
+      simp at hs; subst hs
+      by_cases hst : ∃ v e, st = .baseI v e
+      · obtain ⟨v, e, rfl⟩ := hst
+        exact acct_cons s _ e rfl rfl rfl rfl rfl ha
+      · obtain ⟨a1, a2, a3, a4, a5⟩ := applySto_ghost { s with bufT := upd s.bufT p rest } st (fun v e he => hst ⟨v, e, he⟩)
+        exact acct_same s _ a1 a2 a3 a4 a5 ha
     · simp at hs
   all_goals (split at hs <;> simp at hs; subst hs; exact acct_same s _ rfl rfl rfl rfl rfl ha)
 
